@@ -47,3 +47,18 @@ package input
 //@     invariant[handler; C13,C14] p.dispatcher != nil && r != nil
 //@   loop 3:
 //@     invariant[handler; C13,C14] p.dispatcher != nil && r != nil
+
+// ---------------------------------------------------------------- amqp.go (C12): every chunk ReadLine yields for a message body
+// is dispatched, in order, each once; the loop over a body ends only when the reader is exhausted.
+//@ smt (define-fun-rec chunksFrom ((base Log) (r Int) (k Int)) Log (ite (<= k 0) base (lsnoc (chunksFrom base r (- k 1)) (eP (eB (rlLine r (- k 1)) (rlArr r (- k 1))) eNil))))
+//@ func (a *Amqp) consumeAMQP()
+//@   property C12,C14
+//@   requires a.dispatcher != nil && a.delivery != nil && a.shutdown != nil
+//@   modifies *
+//@   loop 1:
+//@     invariant[wf] a.dispatcher != nil && a.delivery != nil && a.shutdown != nil && a.dispatcher == old(a.dispatcher)
+//@   loop 2:
+//@     invariant[wf2] a.dispatcher == old(a.dispatcher) && a.dispatcher != nil && r != nil && 0 <= r.rpos && r.rpos <= rlCount(r.rsrc)
+//@     invariant[dispatched_so_far] calls(a.dispatcher.Dispatch) == chunksFrom(iter(calls(a.dispatcher.Dispatch)), r.rsrc, r.rpos)
+//@   branch "<-a.delivery":
+//@     ensures[every_chunk_once_in_order; C12] exists src ref :: calls(a.dispatcher.Dispatch) == chunksFrom(old(calls(a.dispatcher.Dispatch)), src, rlCount(src))
